@@ -22,6 +22,7 @@ TNext ==
                 ok == /\ Applicable(obj, o.o)
                       /\ o.res = "ok"
                       /\ \A s \in 1..3 : o.vals[s] = exp[s]
+                      /\ (o.o.op = "take") => o.taken = obj[o.o.a]
             IN /\ obj' = exp
                /\ dead' = ~ok
                /\ IF ok THEN nbad' = nbad ELSE Bad(l) /\ nbad' = nbad + 1
